@@ -199,11 +199,6 @@ def run_batch(ctx):
             kind = KINDS[(ctx.batch + '?*+'.index(op)) % len(KINDS)]
             for parser, lexer in (('lalr', 'contextual'), ('earley', 'dynamic')):
                 check_pair(ctx, kind, 0, 0, op, parser, lexer, [0, 1, 2, 3, 7, 20])
-        # a group with alternatives below the factoring threshold: k**n expansions if the copies are multiplied out
-        n, m = [(20, 20), (16, 24), (40, 40), (30, 49), (12, 13), (49, 49), (0, 30), (24, 25)][ctx.batch % 8]
-        check_pair(ctx, 'alt-group', n, m, '~', ['lalr', 'earley'][ctx.batch % 2], ['contextual', 'basic'][ctx.batch % 2], ks_for(n, m, rng),
-                   build_budget=4_000_000)      # a handful of rules: a construction that needs more steps is multiplying something out
-        ctx.count('alt-group-below-factoring-threshold')
     else:
         # every 0<=n<=m<=140 for LALR+terminal, split over the batches
         allp = [(n, m) for n in range(0, 141) for m in range(max(n, 1), 141)]
@@ -236,6 +231,11 @@ def run_batch(ctx):
                 lexer = 'basic'
             check_pair(ctx, kind, n, m, '~', parser, lexer, ks_for(n, m, rng))
             ctx.count('random-large-pairs')
+    # both tiers: a group with alternatives below the factoring threshold - k**n expansions if the copies are multiplied out
+    n, m = [(20, 20), (16, 24), (40, 40), (30, 49), (12, 13), (49, 49), (0, 30), (24, 25)][ctx.batch % 8]
+    check_pair(ctx, 'alt-group', n, m, '~', ['lalr', 'earley'][ctx.batch % 2], ['contextual', 'basic'][ctx.batch % 2], ks_for(n, m, rng),
+               build_budget=4_000_000)      # a handful of rules: a construction that needs more steps is multiplying something out
+    ctx.count('alt-group-below-factoring-threshold')
     ctx.sample({'grammar': grammar('term', '~3..51')[0], 'k': [1, 2, 3, 4, 5, 27, 49, 50, 51, 52, 53]})
 
 
